@@ -16,6 +16,10 @@ type vfSuiteTC struct {
 	Method  string `json:"method"`
 	RawReq  bool   `json:"rawRequest"`
 	RawResp bool   `json:"rawResponse"`
+	// Preset: the suite file already fills request fields that the runner owns (the proto docs say they
+	// "must not be present", so rejecting such a suite is fine; if it is expanded the runner's values must win).
+	// bit 0 server_tls_cert, bit 1 client_tls_creds, bit 2 http_version/protocol/codec/compression, bit 3 host/port
+	Preset int `json:"preset"`
 }
 
 type vfSuite struct {
@@ -46,6 +50,19 @@ func vfSuiteProto(s vfSuite) *conformancev1.TestSuite {
 		}
 		if tc.Method != "" {
 			req.Method = proto.String(tc.Method)
+		}
+		if tc.Preset&1 != 0 {
+			req.ServerTlsCert = []byte("STALE-CERT")
+		}
+		if tc.Preset&2 != 0 {
+			req.ClientTlsCreds = &conformancev1.TLSCreds{Cert: []byte("STALE"), Key: []byte("STALE")}
+		}
+		if tc.Preset&4 != 0 {
+			req.HttpVersion, req.Protocol = conformancev1.HTTPVersion_HTTP_VERSION_3, conformancev1.Protocol_PROTOCOL_GRPC_WEB
+			req.Codec, req.Compression = conformancev1.Codec_CODEC_JSON, conformancev1.Compression_COMPRESSION_SNAPPY
+		}
+		if tc.Preset&8 != 0 {
+			req.Host, req.Port = "stale.example", 9
 		}
 		var msg proto.Message
 		var raw *conformancev1.RawHTTPResponse
@@ -122,6 +139,9 @@ func vfGenSuites(t *rapid.T, mode int32) []vfSuite {
 			if rapid.IntRange(0, 4).Draw(t, "explicit") == 0 {
 				tc.Service, tc.Method = "connectrpc.conformance.v1.ConformanceService", rapid.SampledFrom([]string{"IdempotentUnary", "Unimplemented", "Unary"}).Draw(t, "method")
 			}
+			if rapid.IntRange(0, 11).Draw(t, "presetRunnerFields") == 0 {
+				tc.Preset = rapid.IntRange(1, 15).Draw(t, "preset")
+			}
 			// raw payloads only where the mode allows them
 			if s.Mode == 2 && rapid.IntRange(0, 5).Draw(t, "rawReq") == 0 {
 				tc.RawReq = true
@@ -134,4 +154,14 @@ func vfGenSuites(t *rapid.T, mode int32) []vfSuite {
 		out = append(out, s)
 	}
 	return out
+}
+
+// vfClearPresets drops the runner-owned request fields again (checks that run real peers keep to documented suites).
+func vfClearPresets(suites []vfSuite) []vfSuite {
+	for i := range suites {
+		for j := range suites[i].Cases {
+			suites[i].Cases[j].Preset = 0
+		}
+	}
+	return suites
 }
